@@ -302,6 +302,11 @@ def seeking_cases(draw):
             elif o == "union":
                 a, b = fresh("u"), fresh("u")
                 pf = draw(st.sampled_from([None, None, 0, 1, a, b]))
+                if draw(st.integers(0, 3)) == 0:
+                    # an anonymous member: parsed from the same start, selectable by position only
+                    which = draw(st.integers(0, 1))
+                    pf = {a: 0, b: 1}.get(pf, pf) if pf == (a, b)[which] else pf
+                    a, b = (None, b) if which == 0 else (a, None)
                 out.append([fresh("un"), ["union", pf, [[a, small()], [b, small()]]]])
             elif o == "tell":
                 t = fresh("t")
@@ -383,12 +388,36 @@ def campaign_bitlevel(ctx):
 campaign_bitlevel.shards = (2, 8)
 
 
+# ---------------------------------------------------------------------------------------------
+# every scope kind and reference path of C07 (Struct/Sequence/FocusedSeq/Union nestings, repetitions, this._.x, _root, _params,
+# mode flags) through the compiler: the context objects built by generated code must resolve like the interpreter's
+# ---------------------------------------------------------------------------------------------
+@st.composite
+def scope_cases(draw):
+    from pbt.props import c07
+    def usable(c):
+        if any(l.startswith("path/index") for l in c[3]):       # (_index: documented exclusion)
+            return False
+        # a Union with parsefrom=None consumes nothing: as GreedyRange element it denotes an endless list (invalid parameterisation;
+        # C07 discards these through its model, which refuses zero-width repetition)
+        if any(n[0] == "grange" and n[1][0] == "union" for n in G.walk(c[0])):
+            return False
+        return not any(G.discards(n) for n in G.walk(c[0]))      # (discard=: documented exclusion)
+    spec, params, value, labels = draw(c07.cases().filter(usable))
+    return [spec, params, value, []]
+
+
+def campaign_scopes(ctx):
+    ctx.search(scope_cases(), oracle_factory(ctx), ctx.budget(12000, 200000))
+campaign_scopes.shards = (4, 16)
+
+
 def campaign_seeking(ctx):
     ctx.search(seeking_cases(), oracle_factory(ctx), ctx.budget(12000, 200000))
 campaign_seeking.shards = (4, 16)
 
 
-CAMPAIGNS = {"grammar": campaign_grammar, "probes": campaign_probes, "seeking": campaign_seeking, "bitlevel": campaign_bitlevel}
+CAMPAIGNS = {"grammar": campaign_grammar, "probes": campaign_probes, "seeking": campaign_seeking, "bitlevel": campaign_bitlevel, "scopes": campaign_scopes}
 
 
 def replay(campaign, case):
